@@ -88,6 +88,11 @@ package session
 
 // ---- session state -----------------------------------------------------------------
 //@ field[C20] Session.state: guarded_by(stateMu)
+//@ field[C20] Session.LogonSettings: guarded_by(mu)
+//@ field[C20] Session.errorHandler: immutable_after(OnError, newSession)
+//@ field[C20] Session.logonRequest: immutable_after(SetLogonRequest, newSession)
+//@ field[C20] Session.unmarshaller: immutable_after(SetUnmarshaller, newSession)
+//@ field[C20] Session.side: immutable_after(NewAcceptorSession, NewInitiatorSession)
 //@ callguard[C05] Session.counter.GetNextSeqNum: mu
 //@ callguard[C05] Session.Router.Send: mu
 //@ field Session.LogonHandler: callback(pure)
